@@ -143,7 +143,7 @@ def obligations():
                           doc=f"ROWINV, CONTENT, SPANS on the {nm}-temperature table" + ("" if star else "; SAME (targets implied by the known heat recovery)"))
         obs += split(base, streams=[1]) + split(base, streams=[2], s0_dir=D, s1_dir=D)
     obs.append(unbounded.cascade_obligation("C05.cascade.rows.u"))
-    obs += split(unbounded.content_obligation("C05.content.rows.u"), hot_streams=[1, 2], is_shifted=[True, False])
+    obs += split(unbounded.content_obligation("C05.content.rows.u"), hot_streams=[1, 2], side=["hot", "cold"], is_shifted=[True, False])
     obs.append(Obligation("C05.projection.b", ob_projection, kind="bounded", bound="tables of 2..4 rows with monotone composite curves, all values symbolic",
                           functions=[pta._insert_temperature_interval_into_pt_at_constant_h, pta._get_T_start_on_opposite_cc], max_paths=100000,
                           doc="PROJECTION: inserted rows inside the table and on the opposite curve; curves unchanged"))
